@@ -130,9 +130,9 @@ class GotranPythonCodePrinter(PythonCodePrinter):
         return f"numpy.mod({self._print(a)}, {self._print(b)})"
 
     def _print_sign(self, e):
-        return "(0.0 if ({e} == 0) else {f}(1, {e}))".format(
-            f=self._module_format("numpy.copysign"), e=self._print(e.args[0])
-        )
+        # A Python conditional expression only works for scalars; numpy.sign is the
+        # same function (0 at 0) and is applied element-wise to arrays
+        return "{f}({e})".format(f=self._module_format("numpy.sign"), e=self._print(e.args[0]))
 
 
 def get_formatter(format: Format) -> typing.Callable[[str], str]:
